@@ -5,7 +5,7 @@ from harness.hbase import fail, tier, Prune, ND
 from billiard.common import restart_state
 from billiard.exceptions import RestartFreqExceeded
 
-from harness.hbase import PART, NPART
+from harness.hbase import PART, NPART, NDCode, CODEMAX
 NSTEPS = tier(4, 6)
 MAXR = tier(3, 4)
 
@@ -100,7 +100,7 @@ def _pool_side(mr, ev, want):
         bp.restart_state = real
     if not isinstance(p.restart_state, Recording):
         return fail('C11:pool:limiter-not-built-from-configuration')
-    nd = ND(ev)
+    nd = ev
     admitted_in_window = 0
     for _ in range(NEV):
         e = nd.draw(0, 2)
@@ -147,27 +147,27 @@ def _pool_side(mr, ev, want):
     return True
 
 
-NEV = tier(3, 5)
+NEV = tier(4, 6)
 
 
-def h_pool_side(mr: int, ev: List[int]) -> bool:
+def h_pool_side(code: int) -> bool:
     """
-    pre: 1 <= mr <= 2 and len(ev) == 3 * NEV
+    pre: 0 <= code < CODEMAX
     post: _
     """
     try:
-        return _pool_side(mr, ev, None)
+        return _pool_side(1 + code % 2, NDCode(code // 2), None)
     except Prune:
         return True
 
 
-def h_pool_side_twin(mr: int, ev: List[int]) -> bool:
+def h_pool_side_twin(code: int) -> bool:
     """
-    pre: 1 <= mr <= 2 and len(ev) == 3 * NEV
+    pre: 0 <= code < CODEMAX
     post: _
     """
     try:
-        return _pool_side(mr, ev, 'raise')
+        return _pool_side(1 + code % 2, NDCode(code // 2), 'raise')
     except Prune:
         return True
 
